@@ -4,6 +4,13 @@ import NakenVerif.FileIO.BinImpl
 import NakenVerif.FileIO.ReadImpl
 import NakenVerif.FileIO.WdcImpl
 import NakenVerif.FileIO.Uf2Impl
+import NakenVerif.FileIO.ElfImpl
+import NakenVerif.FileIO.ElfReadImpl
+import NakenVerif.FileIO.Uf2ReadImpl
+import NakenVerif.FileIO.TiTxtImpl
+import NakenVerif.FileIO.AmigaImpl
+import NakenVerif.Generated.Limits
+import NakenVerif.Generated.SymbolsLayout
 import Std.Data.HashMap
 import NakenVerif.Generated.CpuList
 namespace Driver.FileIO
@@ -53,10 +60,52 @@ def srecSizeOf (cpu : String) : Nat :=
   | some c => c.srecSize
   | none => 0
 
+/-- `Symbols::append` calls on a fresh table, in `Symbols::iterate` order: an entry goes to the first pool of
+SYMBOLS_HEAP_SIZE bytes with `ptr + token_len + sizeof(Entry) < len` (so a short name can land in an earlier pool than
+its predecessor); a name that is already there or longer than 254 characters is refused.
+Entry = (name, address, exported). -/
+def symPools (calls : List (List UInt8 × Nat × Bool)) : List (List UInt8 × Nat × Bool) :=
+  let heap := NakenVerif.Generated.symbolsHeapSize
+  let hdr := NakenVerif.Generated.symbolEntryHeader
+  let pools : Array (Nat × Array (List UInt8 × Nat × Bool)) :=
+    calls.foldl (fun (pools : Array (Nat × Array (List UInt8 × Nat × Bool))) c =>
+      let tl := c.1.length + 1
+      if tl > 255 ∨ pools.any (fun p => p.2.any (fun e => e.1 == c.1)) then pools else
+      match pools.findIdx? (fun p => p.1 + tl + hdr < heap) with
+      | some i => pools.modify i (fun p => (p.1 + tl + hdr, p.2.push c))
+      | none => pools.push (tl + hdr, #[c])) #[]
+  pools.toList.flatMap (fun p => p.2.toList)
+
+/-- `name=hexaddr[!],...` → the exported symbols in `Symbols::iterate` order -/
+def parseSyms (s : String) : List ElfImpl.Sym :=
+  if s == "-" then [] else
+  let all := (s.splitOn ",").map (fun e =>
+    let ex := e.endsWith "!"
+    let body := if ex then e.toList.dropLast else e.toList
+    let rev := body.reverse
+    let addr := (rev.takeWhile (· ≠ '=')).reverse
+    let name := (rev.dropWhile (· ≠ '=')).drop 1 |>.reverse
+    (charsToBytes name, parseHexNat addr, ex))
+  (symPools all).filterMap (fun e => if e.2.2 then some (e.1, e.2.1) else none)
+
+def cpuInfoOf (cpu : String) : Option CpuInfo :=
+  let name := if cpu == "-" then "msp430" else cpu
+  cpuList.find? (fun c => c.name == name)
+
+/-- `memory.endian` as the harness sets it: the CPU's default, overridden by the letters b / l -/
+def endianOf (cpu opts : String) : Bool :=
+  if opts.contains 'l' then false else if opts.contains 'b' then true
+  else match cpuInfoOf cpu with | some c => c.bigEndian | none => false
+
+def elfConfig (cpu : String) : ElfImpl.Config :=
+  match cpuInfoOf cpu with
+  | some c => { cpuType := c.type, alignment := c.alignment, filename := charsToBytes "image.asm".toList }
+  | none => { cpuType := 0, alignment := 1, filename := charsToBytes "image.asm".toList }
+
 /-- `wr <fmt> <cpu|-> <opts> <cells> <entry|-> [syms]` -/
 def handleWr (args : List String) : String :=
   match args with
-  | fmt :: cpu :: opts :: cells :: entry :: _ =>
+  | fmt :: cpu :: opts :: cells :: entry :: rest =>
     let (low, cs) := parseCells cells
     let img : Image := { low := low, cells := cs,
                          entry := if entry == "-" then 0xffffffff else parseHexNat entry.toList,
@@ -71,6 +120,12 @@ def handleWr (args : List String) : String :=
     else if fmt == "bin" then head ++ toHexString (BinImpl.write img)
     else if fmt == "wdc" then head ++ toHexString (WdcImpl.write img)
     else if fmt == "uf2" then head ++ toHexString (Uf2Impl.write img)
+    else if fmt == "amiga" then head ++ toHexString (AmigaImpl.write img)
+    else if fmt == "elf" then
+      let syms := match rest with | s :: _ => parseSyms s | [] => []
+      let img := { img with bigEndian := endianOf cpu opts }
+      "ok low=" ++ natHex img.low ++ " high=" ++ natHex (ElfImpl.highAddr img) ++ " s0=- file=" ++
+        toHexString (ElfImpl.write img syms (elfConfig cpu))
     else "not-modelled"
   | _ => "bad-op"
 
@@ -102,6 +157,29 @@ def showLoaded (typ : String) (r : ReadImpl.Loaded) : String :=
   "ret=" ++ toString (if ok then 0 else r.ret) ++ " type=" ++ typ ++ " low=" ++ natHex r.low ++ " high=" ++ natHex r.high ++
     " end=l cpu=" ++ (if ok then "msp430" else "-") ++ " nz=" ++ dumpNonZero r.writes ++ " syms=-"
 
+def upperDigit (d : Nat) : Char := if d < 10 then Char.ofNat (48 + d) else Char.ofNat (55 + d)
+
+/-- a symbol name as the harness prints it: bytes outside 0x21..0x7e and `,` `=` `%` as %XX -/
+def bytesToString (bs : List UInt8) : String :=
+  bs.foldl (fun (s : String) b =>
+    if b.toNat < 0x21 ∨ b.toNat > 0x7e ∨ b == 44 ∨ b == 61 ∨ b == 37 then
+      ((s.push '%').push (upperDigit (b.toNat / 16))).push (upperDigit (b.toNat % 16))
+    else s.push (Char.ofNat b.toNat)) ""
+
+def symTable (calls : List (List UInt8 × Nat)) : List (List UInt8 × Nat) :=
+  (symPools (calls.map (fun c => (c.1, c.2, false)))).map (fun e => (e.1, e.2.1))
+
+def showSyms (t : List (List UInt8 × Nat)) : String :=
+  if t.isEmpty then "-" else ",".intercalate (t.map (fun e => bytesToString e.1 ++ "=" ++ natHex e.2))
+
+def showElf (r : ElfReadImpl.Loaded) : String :=
+  if r.ret < 0 then "ret=" ++ toString r.ret ++ " type=elf low=ffffffff high=0 end=l cpu=- nz=- syms=-" else
+  -- file_read(): set_cpu_by_type(cpu_type) copies the CPU's name and default endian
+  let cpu := NakenVerif.Generated.cpuList.find? (fun c => c.type == r.cpuType)
+  let (name, big) := match cpu with | some c => (c.name, c.bigEndian) | none => ("-", r.big)
+  "ret=0 type=elf low=" ++ natHex r.low ++ " high=" ++ natHex r.high ++ " end=" ++ (if big then "b" else "l") ++
+    " cpu=" ++ name ++ " nz=" ++ dumpNonZero r.writes ++ " syms=" ++ showSyms (symTable r.syms)
+
 /-- `rd <fmt> <ext> <file hex> [start]` for fmt = hex, srec, bin -/
 def handleRd (args : List String) : String :=
   match args with
@@ -117,6 +195,16 @@ def handleRd (args : List String) : String :=
     else if fmt == "wdc" then
       let r := WdcImpl.read bytes
       showLoaded "wdc" { ret := r.ret, writes := r.writes, low := r.low, high := r.high }
+    else if fmt == "elf" then showElf (ElfReadImpl.read bytes)
+    else if fmt == "uf2" then
+      let r := Uf2ReadImpl.read bytes
+      -- Memory::write8 keeps low_address / high_address as the minimum / maximum address written
+      let lo := r.writes.foldl (fun m w => if w.1 < m then w.1 else m) 0xffffffff
+      let hi := r.writes.foldl (fun m w => if w.1 > m then w.1 else m) 0
+      showLoaded "uf2" { ret := r.ret, writes := r.writes, low := lo, high := hi }
+    else if fmt == "ti_txt" then
+      let r := TiTxtImpl.read chars
+      showLoaded "ti_txt" { ret := r.ret, writes := r.writes, low := r.low, high := r.high }
     else "not-modelled"
   | _ => "bad-op"
 end Driver.FileIO
